@@ -2,6 +2,8 @@
 import NfpmModel.Bytes
 namespace Nfpm.Reviewed
 open Nfpm
+-- tabulated by execution: for every format and every script selector (found by reflection) alone, a package is
+-- built with a marker script and decoded; the row says which slot held the marker, and with what mode
 def scripts_deb : List (Bytes × Bytes × Nat) := [(b!"config", b!"Deb.Scripts.Config", 0o755), (b!"postinst", b!"Scripts.PostInstall", 0o755), (b!"postrm", b!"Scripts.PostRemove", 0o755), (b!"preinst", b!"Scripts.PreInstall", 0o755), (b!"prerm", b!"Scripts.PreRemove", 0o755), (b!"rules", b!"Deb.Scripts.Rules", 0o755), (b!"templates", b!"Deb.Scripts.Templates", 0o644)]
 def scripts_apk : List (Bytes × Bytes × Nat) := [(b!".post-deinstall", b!"Scripts.PostRemove", 0o755), (b!".post-install", b!"Scripts.PostInstall", 0o755), (b!".post-upgrade", b!"APK.Scripts.PostUpgrade", 0o755), (b!".pre-deinstall", b!"Scripts.PreRemove", 0o755), (b!".pre-install", b!"Scripts.PreInstall", 0o755), (b!".pre-upgrade", b!"APK.Scripts.PreUpgrade", 0o755)]
 def scripts_arch : List (Bytes × Bytes × Nat) := [(b!"post_install", b!"Scripts.PostInstall", 0), (b!"post_remove", b!"Scripts.PostRemove", 0), (b!"post_upgrade", b!"ArchLinux.Scripts.PostUpgrade", 0), (b!"pre_install", b!"Scripts.PreInstall", 0), (b!"pre_remove", b!"Scripts.PreRemove", 0), (b!"pre_upgrade", b!"ArchLinux.Scripts.PreUpgrade", 0)]
